@@ -33,6 +33,35 @@ CLAIMS = {
              '(every bid x seat x slot empty/occupied); flags reset by every bid; contract() evaluated under every valuation (ended or not, '
              'passed out, 3 doubling states x 4 vulnerabilities x bidder x recorded first namer) and compared field by field.',
         ref='4/C03'),
+    'C04': dict(
+        technique=PATHS + '; order-class folding of calc_highest',
+        text='play_card (helpers inlined, leader loop summarised) evaluated for every leader x cards-in-trick x highest-trump position x '
+             'highest-led-suit position: record carries the OLD leader and the cards incl. this one, new leader = trump winner else winner of '
+             'the suit of card 0, one +1 to the NEW leader\'s side, turn/trick bookkeeping; calc_highest decided for all tricks by use analysis '
+             '(comparison-only) + folding on all 768 suit-membership x rank-order classes; constructor (dummy, opening leader, passed-out '
+             'refused); has_done <=> 13 tricks.',
+        ref='4/C04'),
+    'C05': dict(
+        technique=PATHS + '; who-may-write scan',
+        text='Both play_card_by_player overrides evaluated for every (seat on turn x seat named x observer x dummy x card held or not x dummy '
+             'disclosed or not): refused plays end in raise with no write on the path; accepted plays remove exactly that card once from '
+             'exactly the named seat\'s hand, add it once to the played cards and to the trick; nothing else in the package mutates hands or '
+             'played cards. Conservation is inductive from these.',
+        ref='4/C05'),
+    'C06': dict(
+        technique='static analysis: use analysis (suit identity only) + folding of available_cards on every hand-pattern x lead class; path summaries of the wrappers; call-site provenance for RandomPlay and the client',
+        text='available_cards equals the follow-suit rule on all hand patterns (31 hands over a 5-card pool x 5 leads; sufficient because cards '
+             'are touched only through suit identity); current_available_cards passes card 0 of the trick or None iff empty; wrappers pass the '
+             'right hand; RandomPlay returns random.choice over current_available_cards(hand) of its own argument; the client feeds it the sets '
+             'its observer mutates.',
+        ref='4/C06'),
+    'C07': dict(
+        technique='static analysis: constant-folded vulnerability tables, reaching-definition routing check, role-bound undertrick tables vs closed form',
+        text='PARTIAL. Decided: the vulnerability handed to the table function is that of declarer\'s side for all 4 declarers x 4 board '
+             'vulnerabilities (Contract.is_vul -> Player.is_vul -> Pair.is_vul folded), argument routing in calc_score, passed-out => 0, the six '
+             'undertrick tables bound by the guards selecting them and compared with the Laws\' closed form. NOT decided: the arithmetic of '
+             'calc_bid_score per input (runtime values; already enumerated exhaustively by the existing suite).',
+        ref='4/C07'),
     'C15': dict(
         technique='static analysis: table extraction by constant folding of the converter ASTs over complete finite domains; whole-table inverse/injectivity comparison',
         text='All converter tables (52 cards, 38 calls, 4 seats, 4 vulnerabilities x spellings, 35x3 contracts x vul x declarer, 2704 card pairs) '
@@ -40,6 +69,13 @@ CLAIMS = {
              'order agrees with index. Exhaustive over the finite domains the property quantifies over.',
         ref='4/C15'),
 }
+
+CLAIMS['C16'] = dict(
+    technique='static analysis: use analysis (difference reaches only abs/neg/comparisons) => piecewise-constant; folding on every interval/boundary representative vs the official scale',
+    text='Scale table equals the official 24-step WBF scale; the difference flows only into abs(), unary minus and comparisons with '
+         'integer constants / table entries, hence the result is constant between consecutive comparison constants; folding k-1,k,k+1 for '
+         'every constant, both signs, 0 and +-1e9 therefore decides every integer (range, monotone, odd follow); score_to_imp passes the sum.',
+    ref='4/C16')
 
 PENDING_REASON = 'check under construction in this session (static rules designed in DESIGN.md section 4, not yet registered)'
 
